@@ -226,7 +226,19 @@ func GenList(t *rapid.T, hostile bool) ListCase {
 	}
 	// lying sizes: only in ways that make the list fail the check (nothing large is ever written)
 	if hostile && gen.Chance(t, 8, "bigsizes") {
-		switch rapid.IntRange(0, 3).Draw(t, "bigkind") {
+		switch rapid.IntRange(0, 7).Draw(t, "bigkind") {
+		case 4: // exactly at the limits: still valid
+			c.Entries = append(c.Entries, Entry{Name: "LICENSE", Mode: "file", Size: zipref.MaxLICENSE})
+		case 5:
+			for i := range c.Entries {
+				if c.Entries[i].Name == "go.mod" && c.Entries[i].Mode == "file" {
+					c.Entries[i].Size = zipref.MaxGoMod
+				}
+			}
+		case 6: // total exactly at the limit
+			c.Entries = append(c.Entries, Entry{Name: "half1.bin", Mode: "file", Size: zipref.MaxZipFile / 2}, Entry{Name: "half2.bin", Mode: "file", Size: zipref.MaxZipFile / 2})
+		case 7: // total one byte over, through a vendored (omitted) file that must not count
+			c.Entries = append(c.Entries, Entry{Name: "vendor/x/big.bin", Mode: "file", Size: zipref.MaxZipFile}, Entry{Name: "one.bin", Mode: "file", Size: 1 << 20})
 		case 0:
 			c.Entries = append(c.Entries, Entry{Name: "LICENSE", Mode: "file", Size: zipref.MaxLICENSE + 1})
 		case 1:
